@@ -182,9 +182,10 @@ def scenarios(tier: str):
 # recording
 
 class _Recorder(iolayer.Consumer):
-    def __init__(self, root, imgdir):
+    def __init__(self, root, imgdir, torn=False):
         self.root = root
         self.imgdir = imgdir
+        self.torn = torn      # torn-write mode: only images of a write(2) cut short by the kill are taken
         self.labels: list[str] = []
         self.synced: dict[tuple, bytes] = {}
         self.sync_log: list[str] = []
@@ -206,8 +207,32 @@ class _Recorder(iolayer.Consumer):
         _copy_tree(self.root, pl, self.synced)
         self.labels.append(label)
 
+    def torn_images(self, ev):
+        """The process is killed while the data of this write reach the file: everything written to the stream before
+        is in the file (the user-space buffer was drained), and only a proper prefix of this call's data follows."""
+        data = bytes(ev.data)
+        f = ev.fobj
+        try:
+            f.flush()
+            pos = REAL['os.fstat'](f.fileno()).st_size if 'a' in getattr(f, 'mode', '') else f.tell()
+        except (OSError, ValueError, AttributeError):
+            return
+        for n in sorted({1, len(data) // 2, len(data) - 1}):
+            if not 0 < n < len(data):
+                continue
+            dst = os.path.join(self.imgdir, f't{len(self.labels)}')
+            _copy_tree(self.root, dst, None)
+            with REAL['open'](os.path.join(dst, ev.path), 'r+b') as fh:
+                fh.seek(pos)
+                fh.write(data[:n])
+            self.labels.append(f'{ev.label()} torn after {n} bytes')
+
     def before(self, ev):
         self.events.append(ev.label())
+        if self.torn:
+            if ev.kind == 'f.write' and ev.data is not None and len(ev.data) >= 2:
+                self.torn_images(ev)
+            return
         if ev.mutating:
             self.image(ev.label())
 
@@ -287,11 +312,12 @@ def _expectations(sc: Scenario, w: World):
     return must, maybe, targets
 
 
-def record(sc: Scenario):
-    """Run the scenario once with the recorder. Returns (world(closed dir kept), imgdir, labels, info)."""
+def record(sc: Scenario, torn=False):
+    """Run the scenario once with the recorder. Returns (world(closed dir kept), imgdir, labels, info).
+    With torn=True the images are those of writes cut short (t<k>) instead of the call boundaries (k<k>, p<k>)."""
     w = _build(sc)
     imgdir = fresh_dir('img')
-    rec = _Recorder(w.root, imgdir)
+    rec = _Recorder(w.root, imgdir, torn=torn)
     must, maybe, targets = _expectations(sc, w)
     damaged = {w.model.keys[o[1]] for o in sc.setup if o[0] == 'damage'}
     rec.baseline()
@@ -304,7 +330,8 @@ def record(sc: Scenario):
     finally:
         iolayer.set_actor(None)
         iolayer.deactivate()
-    rec.image('<returned>')
+    if not torn:
+        rec.image('<returned>')
     info = {'must': must, 'maybe': maybe, 'targets': targets, 'res': res, 'events': rec.events, 'sync_log': rec.sync_log,
             'content': dict(w.model.content), 'keys': list(w.model.keys), 'absent': w.model.absent, 'damaged': damaged,
             'model_after': w.model.mapping()}
